@@ -280,16 +280,17 @@ class BaseLoadedMessage(LoadedMessageInterface):
             maintype, subtype, params, disposition, language, location,
             content_id, content_desc, content_encoding, None, size)
 
-    def contains(self, value: bytes) -> bool:
+    def contains(self, value: bytes, *, header: bool = True) -> bool:
         try:
             content = self.content
         except _NoContent:
             return False
         pattern = re.compile(re.escape(value), re.I)
         for part in content.walk():
-            if pattern.search(bytes(part.header)) is not None:
-                return True
-            elif part.body.content_type.maintype == 'text':
+            if header or part is not content:
+                if pattern.search(bytes(part.header)) is not None:
+                    return True
+            if part.body.content_type.maintype == 'text':
                 if pattern.search(bytes(part.body)) is not None:
                     return True
         return False
